@@ -134,7 +134,7 @@ def vec(sp, vals=None, cplx_vals=None):
     return sp.element(arr.astype(sp.dtype))
 
 
-def posvec(sp, vals=(1.5, 0.75, 2.25, 0.5, 1.25)):
+def posvec(sp, vals=(1.0, 2.5, 0.75, 3.0, 0.5, 1.75, 4.0)):
     """strictly positive element (weights, priors, steps)."""
     if isinstance(sp, odl.ProductSpace):
         return sp.element([posvec(s, tuple(np.roll(np.asarray(vals), -k))) for k, s in enumerate(sp)])
